@@ -95,32 +95,42 @@ theorem make_compose (y m d h mi s ms : Int) :
     goUnixMilli (goDate y (m + 1) d h mi s (ms * 1000000)) =
       Spec.MakeDate (Spec.MakeDay y m d) (Spec.MakeTime h mi s ms) := Lem.make_compose y m d h mi s ms
 
-/-- Date.UTC / `new Date(y,m,…)` on converted fields = MakeDate(MakeDay, MakeTime), all of ℤ^7 -/
+/-- Date.UTC / `new Date(y,m,…)` on converted fields = MakeDate(MakeDay, MakeTime), all of ℤ^7
+    (milliseconds enter time.Date as seconds + ms quo 1000 and (ms rem 1000)·10^6 ns) -/
 theorem dateCore_eq (y m d h mi s ms : Int) :
     dateCore y m d h mi s ms = Spec.MakeDate (Spec.MakeDay y m d) (Spec.MakeTime h mi s ms) :=
-  make_compose y m d h mi s ms
-
+  Lem.make_compose_ms y m d h mi s ms
 
 /-- Date.UTC(a1,…,an) / `new Date(a1,…,an)` (n = 2..7) with integral arguments, through newDateTime's float64
-    wrapper (pick, the two-digit-year test on the truncated year, int conversion, TimeClip on float64(ms)):
-    exactly §15.9.4.3, for every result however large. -/
+    wrapper (all picks, the two-digit-year test on the truncated year, the too-large guard, int conversion,
+    TimeClip on float64(ms)): NaN when a field by itself spans more than 1e9 days (`utcHuge`), otherwise exactly
+    §15.9.4.3, for every result however large. -/
 theorem dateUTC_int (vs : List Int) (h2 : 2 ≤ vs.length) (h7 : vs.length ≤ 7) (hsm : ∀ v ∈ vs, v.natAbs < 2^53) :
-    newDateTime (vs.map ofInt) = Spec.dateUTC (vs.map ofInt) := Lem.dateUTC_int vs h2 h7 hsm
+    newDateTime (vs.map ofInt) = if utcHuge vs then none else Spec.dateUTC (vs.map ofInt) := Lem.dateUTC_int vs h2 h7 hsm
 
 example : newDateTime ([99, 13, -5, 25, -61, 3600, 123456].map ofInt) = some 948934863456 := by decide +kernel
-/-- fractional two-digit years and TimeClip, on the model and on the spec: Date.UTC(99.5, 0), Date.UTC(-0.5, 0), Date.UTC(1e6, 0) -/
+/-- fractional two-digit years, TimeClip, a legitimate 1e13 ms field and a field beyond every integer type:
+    Date.UTC(99.5, 0), Date.UTC(-0.5, 0), Date.UTC(1e6, 0), Date.UTC(2000,0,1,0,0,0,1e13), Date.UTC(2^1000, 0) -/
 example : newDateTime [.fin false 199 (-1), zero] = some 915148800000 ∧ Spec.dateUTC [.fin false 199 (-1), zero] = some 915148800000 ∧
     newDateTime [.fin true 1 (-1), zero] = Spec.dateUTC [.fin true 1 (-1), zero] ∧
-    newDateTime [.fin false 1000000 0, zero] = none ∧ Spec.dateUTC [.fin false 1000000 0, zero] = none := by decide +kernel
+    newDateTime [.fin false 1000000 0, zero] = none ∧ Spec.dateUTC [.fin false 1000000 0, zero] = none ∧
+    newDateTime [.fin false 2000 0, zero, one, zero, zero, zero, .fin false 10000000000000 0] = some 10946684800000 ∧
+    newDateTime [.fin false 1 1000, zero] = none ∧ Spec.dateUTC [.fin false 1 1000, zero] = none := by decide +kernel
 
 /-- `math.Abs(float64(i)) > 8.64e15` decides TimeClip for EVERY integer i (also where float64(i) rounds) -/
 theorem timeclip_test (i : Int) : beyondMax (ofInt i) = decide (i.natAbs > 8640000000000000) := Lem.beyondMax_ofInt i
 
+/-- dateFieldsTooLarge on integral doubles is the integer test -/
+theorem tooLarge_int (y m d h mi s ms : Int) :
+    tooLarge (fvInt y) (fvInt m) (fvInt d) (fvInt h) (fvInt mi) (fvInt s) (fvInt ms) = hugeInt y m d h mi s ms :=
+  Lem.tooLarge_fvInt y m d h mi s ms
+
 -- ================================================================ setters
 
-/-- every setUTC* body = the ES5 recomposition, for every integer time value and all integer arguments -/
+/-- every setUTC* body (before its too-large guard) = the ES5 recomposition, for every integer time value and all
+    integer arguments -/
 theorem setter_core (k : Setter) (t : Int) (vs : List Int) (hk : k ≠ .time) (h1 : 1 ≤ vs.length) (h2 : vs.length ≤ k.limit) :
-    some (setCore k (stateTime t) vs) = Spec.setUTCRaw (toSpec k) (some t) (vs.map fvInt) :=
+    some (setCoreU k (stateTime t) vs) = Spec.setUTCRaw (toSpec k) (some t) (vs.map fvInt) :=
   Lem.setter_core k t vs hk h1 h2
 
 /-- dateObject.Set(float64(t)) / `new Date(t)` / setTime(t) for ANY integer t and ANY previous state:
@@ -149,21 +159,23 @@ example : DivExact (-8639999999999999) := by decide +kernel
 example : DivExact (-1) := by decide +kernel
 
 /-- one call of any of the eight setters (setTime included) with 1..limit integral arguments, from ANY state
-    (valid or invalid): the new object and the return value are the ES5 ones, TimeClip included. -/
-theorem setUTC_step (k : Setter) (tv : Spec.TV) (vs : List Int) (h1 : 1 ≤ vs.length) (h2 : vs.length ≤ k.limit)
+    (valid or invalid): the new object and the return value are the ES5 ones, TimeClip included — except in
+    Dev `huge_field_cancel` (the too-large guard trips although the exact recomposition is in range). -/
+theorem setUTC_step (k : Setter) (tv : Spec.TV) (hok : TVok tv) (vs : List Int) (h1 : 1 ≤ vs.length) (h2 : vs.length ≤ k.limit)
     (hsm : ∀ v ∈ vs, v.natAbs < 2^53)
-    (hdiv : ∀ t', Spec.setUTCRaw (toSpec k) tv (vs.map ofInt) = some t' → t'.natAbs ≤ 8640000000000000 → DivExact t') :
+    (hdiv : ∀ t', Spec.setUTCRaw (toSpec k) tv (vs.map ofInt) = some t' → t'.natAbs ≤ 8640000000000000 → DivExact t')
+    (hnc : ¬ (setterHuge k (tv.getD 0) vs = true ∧ (Spec.setUTC (toSpec k) tv (vs.map ofInt)).isSome = true)) :
     setUTC k (stateOf tv) (vs.map ofInt) =
       (stateOf (Spec.setUTC (toSpec k) tv (vs.map ofInt)), Spec.setUTC (toSpec k) tv (vs.map ofInt)) :=
-  Lem.setUTC_step k tv vs h1 h2 hsm hdiv
+  Lem.setUTC_step k tv hok vs h1 h2 hsm hdiv hnc
 
 /-- all histories of setUTC*/setTime calls with integral arguments, by induction on the history, from any
     state: otto's object state and every return value are the ES5 ones (values leaving ±8.64e15 become NaN on
     both sides; setTime / setUTCFullYear revive an invalid date on both sides). -/
-theorem setter_histories (hist : List (Setter × List Int)) (tv : Spec.TV) (hg : Good tv hist) :
+theorem setter_histories (hist : List (Setter × List Int)) (tv : Spec.TV) (hok : TVok tv) (hg : Good tv hist) :
     runSetters (stateOf tv) (hist.map liftM) =
       (stateOf (Spec.runSetters tv (hist.map liftS)).1, (Spec.runSetters tv (hist.map liftS)).2) :=
-  Lem.setter_histories hist tv hg
+  Lem.setter_histories hist tv hok hg
 
 /-- `Good` is satisfiable by a history that leaves the range, is revived by setUTCFullYear and by setTime:
     d = new Date(8.64e15); d.setUTCMilliseconds(1) (→ NaN); d.setUTCFullYear(2000, 13, -3); d.setTime(1000) -/
@@ -173,13 +185,20 @@ example : Good (some 8640000000000000) [(.ms, [1]), (.year, [2000, 13, -3]), (.t
         have e : Spec.setUTCRaw (toSpec .ms) (some 8640000000000000) ([1].map ofInt) = some 8640000000000001 := by decide +kernel
         rw [e] at h; injection h with h; exact h.symm
       subst this; omega,
+   by decide +kernel,
    by decide, by decide, by decide, fun t' h _ => by
       have e : Spec.setUTCRaw (toSpec .year) (Spec.setUTC (toSpec .ms) (some 8640000000000000) ([1].map ofInt)) ([2000, 13, -3].map ofInt) = some 980640000000 := by decide +kernel
       rw [e] at h; injection h with h; subst h; decide +kernel,
+   by decide +kernel,
    by decide, by decide, by decide, fun t' h _ => by
       have e : Spec.setUTCRaw (toSpec .time) (Spec.setUTC (toSpec .year) (Spec.setUTC (toSpec .ms) (some 8640000000000000) ([1].map ofInt)) ([2000, 13, -3].map ofInt)) ([1000].map ofInt) = some 1000 := by decide +kernel
       rw [e] at h; injection h with h; subst h; decide +kernel,
+   by decide +kernel,
    trivial⟩
+
+/-- a field too large for any integer type: d = new Date(0); d.setUTCDate(2^1000) invalidates the date on both sides -/
+example : setUTC .date (newDate zero) [.fin false 1 1000] = (invalidDateObject, none) ∧
+    Spec.setUTC .date (some 0) [.fin false 1 1000] = none := by decide +kernel
 
 -- ================================================================ invalid dates
 
@@ -262,17 +281,46 @@ theorem iso_roundtrip (t : Int) (h : t.natAbs ≤ 8640000000000000) :
 example : toISOString (newDate (.fin false 253402300800000 0)) = .ok ([43,48,49,48,48,48,48] ++ [45,48,49,45,48,49,84,48,48,58,48,48,58,48,48,46,48,48,48,90]) ∧
     parseOfISO (newDate (.fin false 253402300800000 0)) = some 253402300800000 := by decide +kernel
 
--- ================================================================ deviation regions: kernel-checked witnesses
--- (scripted arguments: which ToNumber conversions happen; `o` = object whose valueOf logs, `t` = throws)
+-- ================================================================ scripted arguments (ToNumber side effects)
 
-/-- Dev conv_skipped_on_invalid: d = new Date(NaN); d.setUTCHours(o) never calls valueOf (ES5: log [0]) -/
-example : (setUTCS .hour (newDate .nan) [.obj one]).2.2 = [] ∧ (Spec.setUTCS .hour none [.obj one]).2.2 = [0] := by decide +kernel
-/-- Dev conv_stops_at_nonfinite: Date.UTC(2000, NaN, o) never converts the third argument -/
-example : (newDateTimeS [.num (.fin false 2000 0), .num .nan, .obj one]).2 = [] ∧
-    (Spec.dateUTCS [.num (.fin false 2000 0), .num .nan, .obj one]).2 = [2] := by decide +kernel
-/-- … and d.setUTCHours(NaN, o) on a valid date likewise -/
-example : (setUTCS .hour (newDate zero) [.num .nan, .obj one]).2.2 = [] ∧ (Spec.setUTCS .hour (some 0) [.num .nan, .obj one]).2.2 = [1] := by decide +kernel
-/-- Dev fullyear_throw_resets: d = new Date(NaN); d.setUTCFullYear(t) throws and leaves the date at 0 (ES5: still invalid) -/
-example : getTime (setUTCS .year (newDate .nan) [.thrower]).1 = some 0 ∧ (Spec.setUTCS .year none [.thrower]).1 = none := by decide +kernel
+/-- ToNumber is applied to the same arguments, in the same order, with the same valueOf log, as §15.9.5.27–.41 say
+    (every argument up to the arity, whatever the state of the date and whatever earlier arguments were) -/
+theorem scripted_conversions (k : Setter) (as : List Arg) :
+    convArgs (as.take k.limit) 0 = Spec.convAll ((as.map toSpecArg).take (toSpec k).arity) 0 :=
+  Lem.scripted_conversions k as
+
+/-- a throwing valueOf: same log, the exception propagates on both sides, and the date is left untouched -/
+theorem scripted_throw (k : Setter) (d : DateObj) (tv : Spec.TV) (as : List Arg) (l : List Nat)
+    (h : Spec.convAll ((as.map toSpecArg).take (toSpec k).arity) 0 = (l, none)) :
+    setUTCS k d as = (d, .threw, l) ∧ Spec.setUTCS (toSpec k) tv (as.map toSpecArg) = (tv, .threw, l) :=
+  Lem.scripted_throw k d tv as l h
+
+/-- no exception: same log, and both sides continue with the unscripted call (`setUTC_step`) on the same numbers -/
+theorem scripted_values (k : Setter) (d : DateObj) (tv : Spec.TV) (as : List Arg) (l : List Nat) (vs : List FV)
+    (h : Spec.convAll ((as.map toSpecArg).take (toSpec k).arity) 0 = (l, some vs)) :
+    setUTCS k d as = ((setUTC k d vs).1, .ret (setUTC k d vs).2, l) ∧
+    Spec.setUTCS (toSpec k) tv (as.map toSpecArg) = (Spec.setUTC (toSpec k) tv vs, .ret (Spec.setUTC (toSpec k) tv vs), l) :=
+  Lem.scripted_values k d tv as l vs h
+
+/-- Date.UTC / constructor: the first seven arguments are all converted, in order -/
+theorem scripted_utc (as : List Arg) (l : List Nat) (r : Option (List FV))
+    (h : Spec.convAll ((as.map toSpecArg).take 7) 0 = (l, r)) :
+    (newDateTimeS as).2 = l ∧ (Spec.dateUTCS (as.map toSpecArg)).2 = l ∧
+    (r = none → (newDateTimeS as).1 = .threw ∧ (Spec.dateUTCS (as.map toSpecArg)).1 = .threw) ∧
+    (∀ vs, r = some vs → (newDateTimeS as).1 = .ret (newDateTime vs) ∧ (Spec.dateUTCS (as.map toSpecArg)).1 = .ret (Spec.dateUTC vs)) :=
+  Lem.scripted_utc as l r h
+
+/-- the three situations that used to differ: conversions on an invalid date, after a NaN, and a throwing valueOf
+    under setUTCFullYear on an invalid date -/
+example : (setUTCS .hour (newDate .nan) [.obj one]).2.2 = [0] ∧ (setUTCS .hour (newDate zero) [.num .nan, .obj one]).2.2 = [1] ∧
+    (newDateTimeS [.num (.fin false 2000 0), .num .nan, .obj one]).2 = [2] ∧
+    getTime (setUTCS .year (newDate .nan) [.thrower]).1 = none := by decide +kernel
+
+-- ================================================================ deviation region: kernel-checked witness
+
+/-- Dev huge_field_cancel: Date.UTC(2500001, 0, -900000000): the year trips the too-large guard (otto NaN), the exact
+    recomposition is the valid time value 1070244316800000 -/
+example : newDateTime [.fin false 2500001 0, zero, .fin true 900000000 0] = none ∧
+    Spec.dateUTC [.fin false 2500001 0, zero, .fin true 900000000 0] = some 1070244316800000 := by decide +kernel
 
 end OttoVerif.C12.Thm
